@@ -28,6 +28,12 @@ def run_kani_only(run, names, bounds, outside, assumes, features=(), timeout=Non
             return bad, obs
         if c['request'].get('op') == 'value_conv':
             obs = {'dev': nd.request(c['request']), 'release': nr.request(c['request'])}
+            if features:          # the candidate comes from MIR built with a feature: the conversions may differ there (specialized routes members of an owned object through the borrowed path), so ask a driver built with it too
+                try:
+                    from vf import native as nat
+                    nat.build_driver(('dev',), tuple(features)); nf = nat.Native('dev', features=tuple(features)); obs['dev with ' + '+'.join(features)] = nf.request(c['request']); nf.close()
+                except Exception as e: obs['feature driver'] = {'kind': 'skipped', 'note': repr(e)[:200]}
+                if any(o.get('kind') == 'ok' and not o.get('equal') for o in obs.values()): return True, obs
             if all(o.get('kind') == 'skipped' for o in obs.values()): return True, {'note': 'specialised entry point: not reachable in the default-feature replay driver; the model-level counterexample (value, expected, got) is reported', **obs}
             return any(o.get('kind') != 'ok' or not o.get('equal') for o in obs.values()), obs
         if c['request'].get('op') == 'deser':
